@@ -113,6 +113,11 @@ def gen_cases(rng, tier):
         spec["backend_params"]["report_hp_name"] = True
         k += 1
         yield spec
+    # results that carry the worker's report counter (it restarts with every run of a trial), pause-and-resume schedulers
+    for _ in range(10 if tier == "quick" else 120):
+        spec = gen_resume_case(rng, tier)
+        spec["backend_params"]["worker_iter"] = True
+        yield spec
 
 
 def corpus():
